@@ -757,8 +757,9 @@ class MessageManager(ClientLike):
                 data.msg_type[i] = mt
                 data.msg_count[i] = count
 
-                if (n % cd.MESSAGE_TRAFFIC_SIZE) == 0:
-                    nsent = n
+                if i == cd.MESSAGE_TRAFFIC_SIZE - 1:
+                    # sub-message is full
+                    nsent = n + 1
                     self.send_message(data)
                     sub_seqno += 1
 
